@@ -239,3 +239,45 @@ func vh_C10_threshold(a []int) {
 	}
 	vReach("C10.end")
 }
+
+// vh_C02_foreignstep: authorization is per step.  Two steps with their own
+// pubkeys; every link is signed by one functionary (symbolic); a link counts
+// for a step only if its signer is listed for *that* step.
+// a = {#links per step}
+func vh_C02_foreignstep(a []int) {
+	nl := a[0]
+	layout := Layout{Keys: map[string]Key{}}
+	for i := 0; i < 3; i++ {
+		layout.Keys[vhFID[i]] = vhFKey(i)
+	}
+	// step s1 lists functionary 0 (and maybe 2), step s2 lists functionary 1 (and maybe 2)
+	both := vBool("f2-authorized-for-both")
+	s1 := Step{Type: "step", Threshold: 1, PubKeys: []string{vhFID[0], vIteStr(both, vhFID[2], "00000000")}, SupplyChainItem: SupplyChainItem{Name: "s1"}}
+	s2 := Step{Type: "step", Threshold: 1, PubKeys: []string{vhFID[1], vIteStr(both, vhFID[2], "00000001")}, SupplyChainItem: SupplyChainItem{Name: "s2"}}
+	layout.Steps = []Step{s1, s2}
+	md := map[string]map[string]Metadata{}
+	want := [2]bool{}
+	for s := 0; s < 2; s++ {
+		per := map[string]Metadata{}
+		for l := 0; l < nl; l++ {
+			signer := vChoice("signer", 3)
+			if _, dup := per[vhFID[signer]]; dup {
+				continue
+			}
+			m := &vhMeta{tag: "S" + strconv.Itoa(s) + "L" + strconv.Itoa(l), payload: Link{Type: "link"}, sigs: []Signature{{KeyID: vhFID[signer], Sig: "00"}}}
+			per[vhFID[signer]] = m
+			valid := vUFBool("valid", m.tag, "0", vhFPub[signer])
+			authorized := signer == s || (signer == 2 && both)
+			if valid && authorized {
+				want[s] = true
+			}
+		}
+		md[layout.Steps[s].Name] = per
+	}
+	_, err := VerifyLinkSignatureThesholds(layout, md, nil, nil)
+	vObserve("foreignstep", err == nil)
+	vAssert("C02.a-link-counts-only-for-the-step-its-signer-is-authorized-for", (err == nil) == (want[0] && want[1]))
+	vReach("C02.end")
+}
+
+func init() { vhRegister("vh_C02_foreignstep", vh_C02_foreignstep) }
